@@ -500,7 +500,7 @@ def geometries(ctx):
         pts = cart_points(axes, sc)
         for pol in ((0, 0, 1), (1, 1, 1), (0, 0, 0)):
             yield ("Cuboid", f"pol={pol},scale={sc:g}",
-                   lambda pol=pol: magpy.magnet.Cuboid(dimension=(2 * a, 2 * b, 2 * c), polarization=pol), pts, None, True)
+                   lambda pol=pol, dim=(2 * a, 2 * b, 2 * c): magpy.magnet.Cuboid(dimension=dim, polarization=pol), pts, None, True)
         # ---- Cylinder: (r, z) x azimuth; r == r0 exactly is reached at phi = 0, y, -x, -y
         r0, z0 = 1.0 * sc, 0.75 * sc
         raxis = coord_set([("axis", 0.0), ("hull", r0), ("r=0.05r0", 0.05 * r0)], sc, rich, nonneg=True)
@@ -509,14 +509,14 @@ def geometries(ctx):
         cpts = cyl_points(raxis, zaxis, [(f"phi={ph}", ph) for ph in (0.0, "y", "-x", "-y", 0.7)], sc)
         for pol in ((0, 0, 1), (1, 0, 0), (0.3, -0.4, 0.5), (0, 0, 0)):
             yield ("Cylinder", f"pol={pol},scale={sc:g}",
-                   lambda pol=pol: magpy.magnet.Cylinder(dimension=(2 * r0, 2 * z0), polarization=pol), cpts, None, True)
+                   lambda pol=pol, dim=(2 * r0, 2 * z0): magpy.magnet.Cylinder(dimension=dim, polarization=pol), cpts, None, True)
         # ---- Circle
         raxis = coord_set([("axis", 0.0), ("wire", r0)], sc, rich, nonneg=True)
         zaxis = coord_set([("plane", 0.0)], sc, rich)
         cpts = cyl_points(raxis, zaxis, [(f"phi={ph}", ph) for ph in (0.0, "y", "-x", 2.1)], sc)
         for cur in (1.0, 0.0):
             yield ("Circle", f"current={cur},scale={sc:g}",
-                   lambda cur=cur: magpy.current.Circle(diameter=2 * r0, current=cur), cpts, None, True)
+                   lambda cur=cur, dia=2 * r0: magpy.current.Circle(diameter=dia, current=cur), cpts, None, True)
         # ---- Sphere
         axes = [coord_set([("0", 0.0), ("surface", r0), ("-surface", -r0)], sc, False) for _ in range(3)]
         pts = cart_points(axes, sc)
@@ -525,7 +525,7 @@ def geometries(ctx):
             pts.append((("diag-surface",) * 3, v, {"kind": "cart", "coords": list(v), "bases": [None] * 3, "sc": sc}))
         for pol in ((0, 0, 1), (0, 0, 0)):
             yield ("Sphere", f"pol={pol},scale={sc:g}",
-                   lambda pol=pol: magpy.magnet.Sphere(diameter=2 * r0, polarization=pol), pts, None, True)
+                   lambda pol=pol, dia=2 * r0: magpy.magnet.Sphere(diameter=dia, polarization=pol), pts, None, True)
         # ---- Dipole (singular point: its location)
         axes = [coord_set([("0", 0.0)], sc, rich) for _ in range(3)]
         pts = cart_points(axes, sc)
@@ -559,25 +559,25 @@ def geometries(ctx):
         yaxis = coord_set([("line", 0.0), ("v2", 2.0 * sc), ("ymid", 1.0 * sc)], sc, False)
         zaxis = coord_set([("plane", 0.0)], sc, rich)
         pts = cart_points([xaxis, yaxis, zaxis], sc)
-        yield ("Polyline", f"L,scale={sc:g}", lambda: magpy.current.Polyline(vertices=verts, current=1.5), pts, None, True)
-        yield ("Polyline", f"L,current=0,scale={sc:g}", lambda: magpy.current.Polyline(vertices=verts, current=0.0), pts, None, True)
+        yield ("Polyline", f"L,scale={sc:g}", lambda verts=verts: magpy.current.Polyline(vertices=verts, current=1.5), pts, None, True)
+        yield ("Polyline", f"L,current=0,scale={sc:g}", lambda verts=verts: magpy.current.Polyline(vertices=verts, current=0.0), pts, None, True)
         dv = [(0.0, 0.0, 0.0), (0.0, 0.0, 0.0), (1.0 * sc, 2.0 * sc, 3.0 * sc)]
         dpts = [((f"extension-line*{m:g}",), tuple(m * x for x in dv[2]), None) for m in (0.5, 2.0, 100.3, -7.7, 1e6, 1e12)]
         yield ("Polyline", f"zero-length-segment,scale={sc:g}",
-               lambda: magpy.current.Polyline(vertices=dv, current=1.0), dpts, None, False)
+               lambda dv=dv: magpy.current.Polyline(vertices=dv, current=1.0), dpts, None, False)
         # ---- Triangle / Tetrahedron / TriangularMesh: faces, edges, in-plane, edge extension lines
         tv = [(0.0, 0.0, 0.0), (1.0 * sc, 0.0, 0.0), (0.0, 1.0 * sc, 0.0)]
         xaxis = coord_set([("v0", 0.0), ("v1", 1.0 * sc), ("mid", 0.5 * sc), ("in", 0.25 * sc), ("ext", 2.0 * sc)], sc, False)
         zaxis = coord_set([("plane", 0.0)], sc, rich)
         pts = cart_points([xaxis, xaxis, zaxis], sc)
-        yield ("Triangle", f"scale={sc:g}", lambda: magpy.misc.Triangle(vertices=tv, polarization=(0.2, -0.3, 1.0)), pts,
+        yield ("Triangle", f"scale={sc:g}", lambda tv=tv: magpy.misc.Triangle(vertices=tv, polarization=(0.2, -0.3, 1.0)), pts,
                near_vertex(tv, sc), True)
-        yield ("Triangle", f"pol=0,scale={sc:g}", lambda: magpy.misc.Triangle(vertices=tv, polarization=(0, 0, 0)), pts,
+        yield ("Triangle", f"pol=0,scale={sc:g}", lambda tv=tv: magpy.misc.Triangle(vertices=tv, polarization=(0, 0, 0)), pts,
                near_vertex(tv, sc), True)
         tet = tv + [(0.0, 0.0, 1.0 * sc)]
         axes = [coord_set([("v0", 0.0), ("v1", 1.0 * sc), ("mid", 0.5 * sc), ("in", 0.2 * sc)], sc, False) for _ in range(3)]
         pts3 = cart_points(axes, sc)
-        yield ("Tetrahedron", f"scale={sc:g}", lambda: magpy.magnet.Tetrahedron(vertices=tet, polarization=(0.1, 0.2, 1.0)),
+        yield ("Tetrahedron", f"scale={sc:g}", lambda tet=tet: magpy.magnet.Tetrahedron(vertices=tet, polarization=(0.1, 0.2, 1.0)),
                pts3, near_vertex(tet, sc), True)
         if first or rich:
             cube = [(x * sc, y * sc, z * sc) for x in (0.0, 1.0) for y in (0.0, 1.0) for z in (0.0, 1.0)]
@@ -585,7 +585,7 @@ def geometries(ctx):
                      if not c[0].endswith((":tiny",)) and c[0] != "far" or c[1] == 1e3 * sc] for _ in range(3)]
             ptsm = cart_points(axes, sc)
             yield ("TriangularMesh", f"cube,scale={sc:g}",
-                   lambda: magpy.magnet.TriangularMesh.from_ConvexHull(points=cube, polarization=(0, 0, 1.0)),
+                   lambda cube=cube: magpy.magnet.TriangularMesh.from_ConvexHull(points=cube, polarization=(0, 0, 1.0)),
                    ptsm, near_vertex(cube, sc), True)
 
     # ---- zero-size sources (documented valid): observers named by where they are
@@ -651,8 +651,8 @@ def check_one(mk, field, p, singular, n=1, confirm=8.0):
 
 
 def norm_tag(t):
-    """'+face:near' -> 'face:near' (sign dropped, kind kept); generic / far / inside / above / azimuth tags -> None"""
-    if t in ("generic", "far", "inside", "above", "phi-inside", "phi-outside") or t.startswith("phi="):
+    """'+face:near' -> 'face:near' (sign dropped, kind kept); generic / inside / above / azimuth tags -> None"""
+    if t in ("generic", "inside", "above", "phi-inside", "phi-outside") or t.startswith("phi="):
         return None
     return t.lstrip("+-")
 
@@ -676,7 +676,7 @@ def shrink_point(mk, field, tags, gen, singular, clause, n):
         r = check_one(mk, field, q, singular, n, confirm=4.0)
         return r is not None and r[0] == clause
 
-    ess = []
+    ess, ess_orig = [], []
     for i in range(len(coords)):
         gens = (0.37 * sc, -1.21 * sc) if gen["kind"] == "cart" or i == 1 else (0.37 * sc, 1.21 * sc)
         for g in gens:
@@ -687,6 +687,7 @@ def shrink_point(mk, field, tags, gen, singular, clause, n):
                 break
         else:
             t = tags[i]
+            ess_orig.append(t)
             base = gen["bases"][i]
             if base is not None and t.rsplit(":", 1)[-1] in ("sub", "tiny"):
                 cs = list(coords)
@@ -705,7 +706,9 @@ def shrink_point(mk, field, tags, gen, singular, clause, n):
             keep = False
         if keep:
             ess.append(tags[2])
-    return sorted(t for t in (norm_tag(t) for t in ess) if t), to_xyz(gen, coords, phi)
+            ess_orig.append(tags[2])
+    return (sorted(t for t in (norm_tag(t) for t in ess) if t), to_xyz(gen, coords, phi),
+            sorted(t for t in (norm_tag(t) for t in ess_orig) if t))
 
 
 def signature(clause, cls, label, ess, shrinkable, n, tags):
@@ -734,24 +737,80 @@ SINGLES = {"Circle": 400, "Cylinder": 400, "CylinderSegment": 60}     # classes 
 NB = 16                                                                # cel switches at 10 rows, cel_iter at 15
 
 
+def multiset_in(small, big_):
+    big_ = list(big_)
+    for t in small:
+        if t in big_:
+            big_.remove(t)
+        else:
+            return False
+    return True
+
+
 def search(ctx, big):
     found = 0
     tstart = time.time()
     budget = ctx.n(120, 900) * (3 if big else 1)
-    failed = set()               # (class, coarse tags) already reported: not evaluated again
+    explained = {}               # class -> list of essential tag multisets already reported (a point whose tags
+                                 # contain one of them fails for that reason and is not evaluated again)
+
+    ncache = {}
+
+    def ntags(cls, tags):
+        key = (cls == "CylinderSegment", tuple(tags))
+        if key not in ncache:
+            ts = [t for t in (norm_tag(t) for t in tags) if t]
+            ncache[key] = sorted(seg_kind(t) for t in ts) if key[0] else sorted(ts)
+        return ncache[key]
+
+    ecache = {}
+
+    def is_explained(cls, tags, shrinkable):
+        if not shrinkable:
+            return False
+        es = explained.get(cls, [])
+        key = (cls, tuple(tags), len(es))
+        if key not in ecache:
+            nt = ntags(cls, tags)
+            ecache[key] = any(multiset_in(e, nt) for e in es)
+        return ecache[key]
 
     def report(cls, label, mk, field, tags, p, gen, singular, shrinkable, clause, what, n):
         ess = []
-        if shrinkable and gen is not None:
-            ess, q = shrink_point(mk, field, tags, gen, singular, clause, n)
+        shr = shrinkable and gen is not None
+        if shr:
+            ess, q, ess_orig = shrink_point(mk, field, tags, gen, singular, clause, n)
             r2 = check_one(mk, field, q, singular, n, confirm=4.0)
             if r2 is not None and r2[0] == clause:
                 p, what = q, r2[1]
-        sig = signature(clause, cls, label, ess, shrinkable and gen is not None, n, tags)
+            for e in (ess, ess_orig):
+                e = sorted(seg_kind(t) for t in e) if cls == "CylinderSegment" else list(e)
+                if e and e not in explained.setdefault(cls, []):
+                    explained[cls].append(e)
+        sig = signature(clause, cls, label, ess, shr, n, tags)
         many = f" (the same observer {n} times in one call; alone it is fine)" if n > 1 else ""
         ctx.impl_fail(sig, f"{cls}({label}).get{field}({tuple(float(x) for x in p)!r}) {what}{many}",
                       {"kind": "point", "class": cls, "label": label, "field": field, "n": n,
                        "point": [float.hex(float(x)) for x in p], "tags": list(tags)})
+        return ess
+
+    def eval_pts(mk, field, xs):
+        allp = [x[1] for x in xs]
+        if len(allp) < NB:
+            allp = allp * (NB // len(allp) + 1)
+        st, v = evaluate(mk(), field, allp, 4.0 + len(allp) / 1500.0)
+        return st, v, allp
+
+    def check_suspect(cls, label, mk, field, x, xs_group, singular, shrinkable):
+        """one observer alone, then NB times in one call, else the failing sub-batch itself"""
+        tags, p, gen = x
+        ctx.case(("search", cls, label, field, tuple(p)), True)
+        for n in (1, NB):
+            r = check_one(mk, field, p, singular, n)
+            if r is not None:
+                ess = report(cls, label, mk, field, tags, p, gen, singular, shrinkable, r[0], r[1], n)
+                return True, ess
+        return False, None
 
     geos = list(geometries(ctx))
     order = {"CylinderSegment": 2, "TriangularMesh": 1}
@@ -768,85 +827,107 @@ def search(ctx, big):
             # within 1e-60 of the location |H| > 1e180 / overflows legitimately: part of the singular point
             pts = [x for x in pts if max(abs(c) for c in x[1]) >= 1e-60]
         for field in ("B", "H"):
-            pts = [x for x in pts if (cls, coarse(x[0])) not in failed]
-            if not pts:
+            if not shrinkable:
+                # small hand-picked batteries (zero-size / sub-normal-size sources): every observer alone and NB times
+                ctx.count("search_points", len(pts))
+                ctx.bump(f"search:{cls}:{field}", len(pts))
+                for x in pts:
+                    hit, _ = check_suspect(cls, label, mk, field, x, pts, singular, False)
+                    found += int(hit)
                 continue
-            groups = {}
-            for x in pts:
-                groups.setdefault(coarse(x[0]), []).append(x)
-            # 1. the whole battery in ONE call (>= 16 rows: vectorised celv / cel_iterv paths)
-            allp = [x[1] for x in pts]
-            if len(allp) < NB:
-                allp = (allp * (NB // len(allp) + 1))
-            st, v = evaluate(mk(), field, allp, 6.0 + len(allp) / 2000.0)
-            ctx.count("search_points", len(allp))
-            ctx.bump(f"search:{cls}:{field}", len(allp))
-            suspects = []
+            cur = [x for x in pts if not is_explained(cls, x[0], shrinkable)]
+            if not cur:
+                continue
+            # 1. the whole battery in ONE call (>= 16 rows: vectorised celv / cel_iterv paths); while it hangs or
+            #    raises, bisect to one failing observer (or minimal failing sub-batch), report, drop what it explains
+            v = None
+            for _round in range(14):
+                st, v, allp = eval_pts(mk, field, cur)
+                ctx.count("search_points", len(allp))
+                ctx.bump(f"search:{cls}:{field}", len(allp))
+                if st == "ok":
+                    break
+                sub = cur
+                while len(sub) > 1:
+                    h = len(sub) // 2
+                    s1, _, _ = eval_pts(mk, field, sub[:h])
+                    if s1 != "ok":
+                        sub = sub[:h]
+                        continue
+                    s2, _, _ = eval_pts(mk, field, sub[h:])
+                    if s2 != "ok":
+                        sub = sub[h:]
+                        continue
+                    break
+                hit = False
+                if len(sub) == 1:
+                    hit, ess = check_suspect(cls, label, mk, field, sub[0], sub, singular, shrinkable)
+                if hit:
+                    found += 1
+                    if not ess or not shrinkable:
+                        cur = [x for x in cur if x is not sub[0]] if (ess or not shrinkable) else []
+                else:
+                    s3, v3, tile = eval_pts(mk, field, sub)
+                    names = sorted({t.split(":")[0] for x in sub[:4] for t in ntags(cls, x[0])})
+                    clause = "terminates" if s3 == "hang" else f"returns[{type(v3).__name__}]" if s3 == "raise" else "finite"
+                    variant = label.split(",")[0] + ":" if cls == "CylinderSegment" else ""
+                    found += 1
+                    ctx.impl_fail(f"{clause}/{cls}:{variant}{'+'.join(names) or 'generic-point'}:mixed-batch",
+                                  f"{cls}({label}).get{field} fails on a batch of {len(sub)} different observers "
+                                  f"(each half of it, and its observers alone or repeated {NB} times, are fine); "
+                                  f"first observer {tuple(sub[0][1])!r}",
+                                  {"kind": "batch", "class": cls, "label": label, "field": field,
+                                   "points": [[float.hex(float(c)) for c in q] for q in tile[:64]]})
+                    drop = {id(x) for x in sub}
+                    cur = [x for x in cur if id(x) not in drop]
+                cur = [x for x in cur if not is_explained(cls, x[0], shrinkable)]
+                if not cur:
+                    break
+            else:
+                ctx.log(f"search: {cls} {label} get{field}: battery still failing after 14 rounds")
+            if not cur:
+                continue
             if st == "ok":
                 v = np.asarray(v)
                 if v.shape != (len(allp), 3):
                     ctx.impl_fail(f"shape/{cls}:batch", f"{cls}.get{field} returned shape {v.shape} for {len(allp)} observers",
                                   {"class": cls, "label": label, "field": field})
                 else:
-                    badrows = np.where(~np.all(np.isfinite(v), axis=1))[0]
-                    seen_g = set()
-                    for i in badrows:
-                        x = pts[i % len(pts)]
-                        key = tuple(sorted((seg_kind(t) if cls == "CylinderSegment" else t)
-                                           for t in (norm_tag(t) for t in x[0]) if t))
-                        if key not in seen_g:
-                            seen_g.add(key)
-                            suspects.append(x)
-            else:
-                # something in the battery hangs / raises: special set by special set, >= 16 rows each
-                for g, gp in groups.items():
-                    tile = ([x[1] for x in gp] * (NB // len(gp) + 1))[:max(NB, len(gp))]
-                    s2, _ = evaluate(mk(), field, tile, 2.0)
-                    if s2 != "ok":
-                        suspects.append(gp[0])
-            # 2. every suspect alone, then NB times in one call
-            for tags, p, gen in suspects:
-                if (cls, coarse(tags)) in failed:
-                    continue
-                ctx.case(("search", cls, label, field, tuple(p)), True)
-                hit = False
-                for n in (1, NB):
-                    r = check_one(mk, field, p, singular, n)
-                    if r is not None:
-                        found += 1
-                        hit = True
-                        failed.add((cls, coarse(tags)))
-                        report(cls, label, mk, field, tags, p, gen, singular, shrinkable, r[0], r[1], n)
-                        break
-                if not hit:
-                    gp = groups[coarse(tags)]
-                    tile = ([x[1] for x in gp] * (NB // len(gp) + 1))[:max(NB, len(gp))]
-                    s3, v3 = guarded_confirm(lambda t=tile: (mk().getB if field == "B" else mk().getH)(np.array(t)), 2.0, 8.0)
-                    badt = s3 != "ok" or not np.all(np.isfinite(np.asarray(v3)))
-                    failed.add((cls, coarse(tags)))
-                    found += 1
-                    names = sorted({t.split(":")[0] for t in (norm_tag(t) for t in tags) if t})
-                    clause = "terminates" if s3 == "hang" else f"returns[{type(v3).__name__}]" if s3 == "raise" else "finite"
-                    variant = label.split(",")[0] + ":" if cls == "CylinderSegment" else ""
-                    ctx.impl_fail(f"{clause}/{cls}:{variant}{'+'.join(names) or 'generic-point'}:mixed-batch",
-                                  f"{cls}({label}).get{field} fails on a batch of different observers of this special set "
-                                  f"({'reproduced on the set alone' if badt else 'only inside the full battery'}), "
-                                  f"each observer alone and repeated {NB} times is fine; first observer {tuple(p)!r}",
-                                  {"kind": "batch", "class": cls, "label": label, "field": field,
-                                   "points": [[float.hex(float(c)) for c in q] for q in tile[:64]]})
+                    # 2. non-finite rows: alone, then NB times in one call
+                    for i in np.where(~np.all(np.isfinite(v), axis=1))[0]:
+                        x = cur[i % len(cur)]
+                        if is_explained(cls, x[0], shrinkable):
+                            continue
+                        hit, ess = check_suspect(cls, label, mk, field, x, cur, singular, shrinkable)
+                        if hit:
+                            found += 1
+                            if shrinkable and not ess:
+                                break                       # fails at a generic point: everything is explained
+                        else:
+                            found += 1
+                            names = ntags(cls, x[0])
+                            variant = label.split(",")[0] + ":" if cls == "CylinderSegment" else ""
+                            explained.setdefault(cls, []).append(names)
+                            ctx.impl_fail(f"finite/{cls}:{variant}{'+'.join(names) or 'generic-point'}:mixed-batch",
+                                          f"{cls}({label}).get{field} gives a non-finite row for observer {tuple(x[1])!r} only "
+                                          f"inside the full battery of {len(allp)} observers",
+                                          {"kind": "batch", "class": cls, "label": label, "field": field,
+                                           "points": [[float.hex(float(c)) for c in q] for q in allp[:64]]})
             # 3. the scalar paths (cel0 / cel_iter0 below 10 / 15 rows): one observer per call per special set
+            groups = {}
+            for x in cur:
+                groups.setdefault(coarse(x[0]), x)
             keys = sorted(groups)
             cap = SINGLES.get(cls, 40) * (1 if ctx.tier == "quick" else 6) * (3 if big else 1)
             stride = max(1, -(-len(keys) // cap))
             for g in keys[::stride]:
-                tags, p, gen = groups[g][0]
-                if (cls, g) in failed:
+                tags, p, gen = groups[g]
+                if is_explained(cls, tags, shrinkable):
                     continue
                 ctx.case(("search", cls, label, field, tuple(p)), True)
                 r = check_one(mk, field, p, singular, 1)
                 if r is not None:
                     found += 1
-                    failed.add((cls, g))
                     report(cls, label, mk, field, tags, p, gen, singular, shrinkable, r[0], r[1], 1)
     return found
 
